@@ -168,7 +168,7 @@ PLANS = {
   'steps': [{'engine': 'e4_api', 'variant': 'VF', 'args': ['--mode=latch'], 'shards': 21}],
   'eval_stats': ['schedules'], 'distinct_key': 'configs', 'state_stats': ['states'], 'transition_stats': ['transitions'], 'trace_stats': ['schedules'],
   'rule': "stateless exploration of real pthreads through the real lock-free latch (asm_check_self_tests_status / isal_self_tests / asm_set_self_tests_status): the page holding self_test_status (and the sha256 manager-init dispatch slot) is PROT_NONE, so every load, lock cmpxchg and store of the status word faults and becomes a scheduling point discovered from the machine code (single instruction let through under the trap flag); the running self-tests (shims) are scheduling points too; exactly one thread runs at a time; depth-first over choice sequences with a visited set of canonical states (per-thread history of (rip, value observed), status word, shim counters); spinning threads (same load, same registers, no intervening store) are disabled until somebody stores; threads N in {1,2,3} with unbounded preemptions (exhaustive), N=4 preemption-bounded; bodies {isal_self_tests x2} and one {approved public entry, isal_self_tests}; outcomes {pass, AES fails, SHA fails (calibrated -1)}; oracle on every complete execution: self-tests entered exactly once, no call returns and no primitive starts before they finished, every return equals the verdict, no deadlock / livelock; every failing schedule is replayed before it is reported",
-  'bound': {'quick': 'N<=3 exhaustive; N=4 with <=2 preemptions', 'thorough': 'N<=3 exhaustive; N=4 with <=3 preemptions'},
+  'bound': {'quick': 'N<=3 exhaustive; N=4 with <=2 preemptions', 'thorough': 'N<=3 exhaustive; N=4 with <=6 preemptions'},
   'deadline': {'quick': 300, 'thorough': 2400},
   'assumptions': A_COMMON + ["interleavings are sequentially consistent at instruction granularity; x86-TSO store buffering is not explored (the protocol publishes with a single plain store after a locked RMW, for which TSO and SC allow the same outcomes)", "self-test bodies are shims (entry/exit are events); what is explored is the latch protocol"],
  },
